@@ -8,6 +8,7 @@ from pyvc.contracts import contract
 
 E = "paranoid_crypto/lib/ec_util.py"
 F = {"a": "int", "b": "int", "mod": "int", "n": "int", "h": "int", "g": "tuple[int,int]"}
+REPLAY_CURVE = "EcCurve('replay', self_a, self_b, self_mod, self_g[0], self_g[1], self_n, self_h)"
 G = "defined('hcube')"      # the generic branch: the path that reaches the final return
 
 
